@@ -6,10 +6,10 @@ CFG = dict(
           "nobody is registered under is logged and routed to nobody), C05_route_take / C05_route_queue (whatever a call takes, has "
           "queued or held for it was read from the transport, routed to it and carries its id) and C05_noninterference_partial (a reply "
           "/ stream message reported to a call is the body of such an envelope) in coq/Props/C05.v, over all label sequences of "
-          "coq/Model/Client.v (any inbound envelopes, any interleaving). C05_route_exact: per call the routed envelopes are, in order and once each, the taken ones, then the queued one, then the held one, then the at most one dropped one (dropped = held while the call unregistered). Non-interference is proved for successes (C05_noninterference_partial); the functional form for every API return is not. Server half: builder sv.",
+          "coq/Model/Client.v (any inbound envelopes, any interleaving). C05_route_exact: per call the routed envelopes are, in order and once each, the taken ones, then the queued one, then the held one, then the at most one dropped one (dropped = held while the call unregistered). C05_noninterference: EVERY API return of a call (unary result, RecvMsg messages and errors, Header, Trailer, SendMsg / CloseSend / NewStream errors) is justified by the envelopes the call itself took (its id, routed to it), by its OWN context, or by the connection-wide read failure. Server half: builder sv.",
     props="Props/C05.v",
     theorems=["C05_unique", "C05_counter", "C05_wire", "C05_route_found", "C05_route_owner", "C05_route_take", "C05_route_queue",
-              "C05_route_exact", "C05_route_nobody", "C05_noninterference_partial"],
+              "C05_route_exact", "C05_route_nobody", "C05_noninterference", "C05_noninterference_partial"],
     imports=["Model.Client", "Check.ClientC", "Check.ClientSpec", "Check.C05c"],
     case_type="c05case",
     find_bad_from="Check.C05c.find_bad_from",
